@@ -27,19 +27,51 @@ def Cond.eval {α : Type} (ops : String → Option (α → α → Bool)) (b : St
   | .atom t => b t
   | .not c => (c.eval ops b v).map (!·)
   | .and x y =>
-    match x.eval ops b v, y.eval ops b v with
-    | some p, some q => some (p && q)
-    | _, _ => none
+    -- Go's `&&` / `||` evaluate the right operand only when needed (a guarded nil dereference or
+    -- type assertion on the right is never reached)
+    match x.eval ops b v with
+    | some true => y.eval ops b v
+    | some false => some false
+    | none => none
   | .or x y =>
-    match x.eval ops b v, y.eval ops b v with
-    | some p, some q => some (p || q)
-    | _, _ => none
+    match x.eval ops b v with
+    | some false => y.eval ops b v
+    | some true => some true
+    | none => none
   | .cmp op x y =>
     match ops op, v x, v y with
     | some f, some p, some q => some (f p q)
     | _, _, _ => none
 
-/-! member coalescer: `previous, ok := c.lastEvents[name]`, the pending event is `cevent` -/
+/-- A function body as a program: if/else (also from early returns and switches), a boolean
+result, named primitive actions, falling off the end. -/
+inductive Prog where
+  | done
+  | ret (c : Cond)
+  | act (a : String) (k : Prog)
+  | ite (c : Cond) (t e : Prog)
+  | unknown (s : String)
+  deriving DecidableEq, Repr, Inhabited
+
+/-- a boolean function body -/
+def Prog.evalBool {α : Type} (ops : String → Option (α → α → Bool)) (b : String → Option Bool)
+    (v : String → Option α) : Prog → Option Bool
+  | .ret c => c.eval ops b v
+  | .ite c t e =>
+    match c.eval ops b v with
+    | some true => t.evalBool ops b v
+    | some false => e.evalBool ops b v
+    | none => none
+  | _ => none
+
+def natOps : String → Option (Nat → Nat → Bool)
+  | "==" => some (fun a b => a == b)
+  | "!=" => some (fun a b => a != b)
+  | "<" => some (fun a b => decide (a < b))
+  | "<=" => some (fun a b => decide (a ≤ b))
+  | ">" => some (fun a b => decide (a > b))
+  | ">=" => some (fun a b => decide (a ≥ b))
+  | _ => none
 
 def kindOps : String → Option (Kind → Kind → Bool)
   | "==" => some (fun a b => a == b)
@@ -54,51 +86,98 @@ def kindOfGo : String → Option Kind
   | "EventMemberReap" => some .reap
   | _ => none
 
-def memberEnvB (ok : Bool) : String → Option Bool := fun s => if s == "ok" then some ok else none
+/-! ### `Handle` of both coalescers.  Event types as numbers: the five member kinds 0–4,
+`EventUser` 5, anything else (queries) 6. -/
 
-def memberEnvV (previous cur : Kind) : String → Option Kind := fun s =>
-  if s == "previous" then some previous else if s == "cevent.Type" then some cur else kindOfGo s
-
-/-! user coalescer: `latest, ok := c.events[user.Name]` -/
-
-def natOps : String → Option (Nat → Nat → Bool)
-  | "==" => some (fun a b => a == b)
-  | "!=" => some (fun a b => a != b)
-  | "<" => some (fun a b => decide (a < b))
-  | "<=" => some (fun a b => decide (a ≤ b))
-  | ">" => some (fun a b => decide (a > b))
-  | ">=" => some (fun a b => decide (a ≥ b))
+def typeCode : String → Option Nat
+  | "EventMemberJoin" => some 0
+  | "EventMemberLeave" => some 1
+  | "EventMemberFailed" => some 2
+  | "EventMemberUpdate" => some 3
+  | "EventMemberReap" => some 4
+  | "EventUser" => some 5
   | _ => none
 
-def userEnvB (ok : Bool) : String → Option Bool := fun s => if s == "ok" then some ok else none
+def kindCode : Kind → Nat
+  | .join => 0 | .leave => 1 | .failed => 2 | .update => 3 | .reap => 4
 
-def userEnvV (latest user : Nat) : String → Option Nat := fun s =>
-  if s == "latest.LTime" then some latest else if s == "user.LTime" then some user else none
+/-- the event handed to `Handle`: `p0.EventType()` is `code` -/
+def handleEnvV (code : Nat) : String → Option Nat := fun s =>
+  if s == "p0.EventType()" then some code else typeCode s
 
-/-- what a guarded block of `userEventCoalescer.Coalesce` does -/
-inductive UAction where
-  /-- `latest = &latestUserEvents{LTime: user.LTime, Events: []Event{e}}; c.events[user.Name] = latest` -/
-  | fresh
-  /-- `latest.Events = append(latest.Events, e)` -/
-  | append
-  deriving DecidableEq, Repr, Inhabited
+/-- boolean terms of `Handle`: the literals, and — for a user event only (on anything else the type
+assertion panics) — the event's Coalesce flag -/
+def handleEnvB (userFlag : Option Bool) : String → Option Bool := fun s =>
+  if s == "true" then some true else if s == "false" then some false
+  else if s == "p0.(UserEvent).Coalesce" then userFlag
+  else if s == "p0.(UserEvent)#ok" then some userFlag.isSome else none
 
-/-- Interpret `Coalesce` (guards in source order; a block that ends in `return` stops) on the
-model state. -/
-def runUserProg : List (Cond × UAction × Bool) → UC → UserEv → Option UC
-  | [], c, _ => some c
-  | (g, a, ret) :: rest, c, e =>
-    match g.eval natOps (userEnvB (alookup c e.name).isSome)
-        (userEnvV (((alookup c e.name).map (·.1)).getD 0) e.lt) with
+/-! ### member coalescer `Flush`: the pending event of member `#k(r.latestEvents)` is `r.latestEvents[*]` -/
+
+def memberEnvB (ok : Bool) : String → Option Bool := fun s =>
+  if s == "r.lastEvents[#k(r.latestEvents)]#ok" then some ok else none
+
+/-- `previous` is meaningful only when `ok` (Go yields the zero value otherwise; the guard must not depend on it) -/
+def memberEnvV (previous : Option Kind) (cur : Kind) : String → Option Kind := fun s =>
+  if s == "r.lastEvents[#k(r.latestEvents)]" then previous
+  else if s == "r.latestEvents[*].Type" then some cur else kindOfGo s
+
+/-- Interpret the body of the loop of `Flush` for one pending event: the new `lastEvents` and what is
+added to the outgoing events. -/
+def runM : Prog → List (String × Kind) → List MEv → MEv → Option (List (String × Kind) × List MEv)
+  | .done, last, out, _ => some (last, out)
+  | .act a k, last, out, e =>
+    if a == "recordLast" then runM k (ainsert last e.name e.kind) out e
+    else if a == "addToEvent" then runM k last (out ++ [e]) e
+    else none
+  | .ite g t f, last, out, e =>
+    match g.eval kindOps (memberEnvB (alookup last e.name).isSome) (memberEnvV (alookup last e.name) e.kind) with
+    | some true => runM t last out e
+    | some false => runM f last out e
     | none => none
-    | some false => runUserProg rest c e
-    | some true =>
-      let c' : UC := match a with
-        | .fresh => ainsert c e.name (e.lt, [e])
-        | .append =>
-          match alookup c e.name with
-          | some (l, evs) => ainsert c e.name (l, evs ++ [e])
-          | none => c
-      if ret then some c' else runUserProg rest c' e
+  | _, _, _, _ => none
+
+/-! ### user coalescer `Coalesce`: the entry of the event's name is `r.events[p0.(UserEvent).Name]` -/
+
+def userEnvB (ok : Bool) : String → Option Bool := fun s =>
+  if s == "r.events[p0.(UserEvent).Name]#ok" then some ok else none
+
+/-- the entry's LTime exists only when there is an entry (a nil dereference otherwise) -/
+def userEnvV (latest : Option Nat) (user : Nat) : String → Option Nat := fun s =>
+  if s == "r.events[p0.(UserEvent).Name].LTime" then latest
+  else if s == "p0.(UserEvent).LTime" then some user else none
+
+/-- Interpret `Coalesce` on the model state. -/
+def runU : Prog → UC → UserEv → Option UC
+  | .done, c, _ => some c
+  | .act a k, c, e =>
+    if a == "fresh" then runU k (ainsert c e.name (e.lt, [e])) e
+    else if a == "append" then
+      match alookup c e.name with
+      | some (l, evs) => runU k (ainsert c e.name (l, evs ++ [e])) e
+      | none => none
+    else none
+  | .ite g t f, c, e =>
+    match g.eval natOps (userEnvB (alookup c e.name).isSome) (userEnvV ((alookup c e.name).map (·.1)) e.lt) with
+    | some true => runU t c e
+    | some false => runU f c e
+    | none => none
+  | _, _, _ => none
+
+/-! ### `coalesceLoop`, the case `e := <-inCh`: the sequence of primitive actions it performs, as a
+function of `c.Handle(e)` -/
+
+def loopEnvB (handled : Bool) : String → Option Bool := fun s =>
+  if s == "p5.Handle(v3)" then some handled else none
+
+def runL : Prog → Bool → Option (List String)
+  | .done, _ => some []
+  | .act a k, h => (runL k h).map (a :: ·)
+  | .ite g t f, h =>
+    match g.eval natOps (loopEnvB h) (fun _ => none) with
+    | some true => runL t h
+    | some false => runL f h
+    | none => none
+  | _, _ => none
 
 end SerfModel.CoalesceShapes
